@@ -87,7 +87,7 @@ type runner struct {
 }
 
 func newRunner() *runner {
-	return &runner{or: &oracle{memo: map[string]Resp{}, dirty: true}, ptrs: map[string]bool{}, st: stats{PerTr: map[string]int64{}, PerOut: map[string]int64{}, PerCfg: map[string]int64{}}}
+	return &runner{or: &oracle{memo: map[string]Resp{}}, ptrs: map[string]bool{}, st: stats{PerTr: map[string]int64{}, PerOut: map[string]int64{}, PerCfg: map[string]int64{}}}
 }
 
 func (rn *runner) report(key, detail string, scen any) {
@@ -309,7 +309,6 @@ func (rn *runner) replay(hi hist, where string, ls *liveServer) {
 	}
 	rn.mu.Lock()
 	rn.st.Histories++
-	rn.or.dirty = true
 	rn.mu.Unlock()
 }
 
@@ -502,92 +501,33 @@ func main() {
 	}
 	nHdrHist := len(histories) - nSeqHist
 
-	// ---- fresh-server oracle for every request of every history (all Ps: it collects garbage twice per run)
+	// ---- fresh-server oracle for every request of every history: one fresh PROCESS per request, four at a time
 	rn := newRunner()
 	rn.check = c
-	prefill := func(h hist) {
+	var oracleReqs []Concrete
+	for _, h := range histories {
 		for _, s := range h.Steps {
 			r := s.Act.R
-			qs := []AReq{r}
+			oracleReqs = append(oracleReqs, concretiseOn(h.Cfg, r, xreqOf(r)))
 			if s.Act.ApqHit != "" {
 				q := r
 				q.Q = s.Act.ApqHit
-				qs = append(qs, q)
+				oracleReqs = append(oracleReqs, concretiseOn(h.Cfg, q, xreqOf(r)))
 			}
-			for _, q := range qs {
-				if _, err := rn.or.alone(concretiseOn(h.Cfg, q, xreqOf(r))); err != nil {
-					if d, ok := err.(*disagree); ok {
-						rn.report("fresh-servers-disagree{tr="+q.Tr+"}", "request "+q.label()+": "+d.Error(), map[string]any{"request": q, "answers": []Resp{d.a, d.b}})
-					} else {
-						vlib.Infra("fresh-server oracle for %s: %v", q.label(), err)
-					}
-				}
+			if r.Q == "-" && strings.HasPrefix(r.Ext, "H:") { // the concurrent variant allows either answer
+				q := r
+				q.Q = strings.TrimPrefix(r.Ext, "H:")
+				oracleReqs = append(oracleReqs, concretiseOn(h.Cfg, q, xreqOf(r)))
 			}
 		}
 	}
-	// "freshly constructed" literally: a subset of the requests (every request of the header instance on
-	// every configuration, one request per (transport, outcome) of the main instance) is also answered by a
-	// fresh server in a fresh PROCESS each; the in-process oracle (fresh server, but a process that has
-	// served other servers' requests) must agree - process-global memory would show here
-	fpSel := map[string]Concrete{}
-	var fpKeys []string
-	classSeen := map[string]bool{}
-	for hi, h := range histories {
-		for _, s := range h.Steps {
-			r := s.Act.R
-			if hi < nSeqHist {
-				cl := r.Tr + "|" + s.Act.Out
-				if classSeen[cl] || s.Act.ApqHit != "" {
-					continue
-				}
-				classSeen[cl] = true
-			}
-			cr := concretiseOn(h.Cfg, r, xreqOf(r))
-			if _, ok := fpSel[cr.key()]; !ok {
-				fpSel[cr.key()] = cr
-				fpKeys = append(fpKeys, cr.key())
-			}
+	rn.or.fill(oracleReqs, 4, func(cr Concrete, err error) {
+		if d, ok := err.(*disagree); ok {
+			rn.report("fresh-servers-disagree", "request "+headerOf(cr, "X-Req")+": "+d.Error(), map[string]any{"concrete": cr, "answers": []Resp{d.a, d.b}})
+		} else {
+			vlib.Infra("fresh-server oracle for %s: %v", headerOf(cr, "X-Req"), err)
 		}
-	}
-	fpAns := make([]Resp, len(fpKeys))
-	fpErr := make([]error, len(fpKeys))
-	var fpWG sync.WaitGroup
-	fpCh := make(chan int, len(fpKeys))
-	for i := range fpKeys {
-		fpCh <- i
-	}
-	close(fpCh)
-	for w := 0; w < 3; w++ {
-		fpWG.Add(1)
-		go func() {
-			defer fpWG.Done()
-			for i := range fpCh {
-				fpAns[i], fpErr[i] = freshProcess(fpSel[fpKeys[i]])
-			}
-		}()
-	}
-	for _, h := range histories {
-		prefill(h)
-	}
-	fpWG.Wait()
-	fpDisagree := 0
-	for i, k := range fpKeys {
-		if fpErr[i] != nil {
-			vlib.Infra("fresh-process oracle: %v", fpErr[i])
-		}
-		in, ok := rn.or.memo[k]
-		if !ok {
-			vlib.Infra("fresh-process oracle: request %s has no in-process answer", k)
-		}
-		if in.key() != fpAns[i].key() {
-			fpDisagree++
-			cr := fpSel[k]
-			rn.report("fresh-servers-disagree{across-processes}",
-				fmt.Sprintf("request %s (%s /graphql?%s, headers %v, body %s) to a server constructed with ResponseHeaders %s:\na freshly constructed server in a fresh process answers\n  %s\na freshly constructed server in a process that has served requests of OTHER servers answers\n  %s",
-					headerOf(cr, "X-Req"), cr.Method, tail(cr.Query, 120), cr.Headers[min(2, len(cr.Headers)):], tail(cr.Body+cr.Payload, 160), canon(cfgHeaders(cr.Cfg)), tail(fpAns[i].key(), 500), tail(in.key(), 500)),
-				map[string]any{"concrete": cr, "fresh_process": fpAns[i], "in_process": in})
-		}
-	}
+	})
 	fmt.Fprintf(os.Stderr, "oracle filled after %.1fs (%d fresh-server runs)\n", time.Since(tStart).Seconds(), rn.or.n)
 
 	// ---- sequential replay: one P, one OS thread, one connection
@@ -662,7 +602,7 @@ func main() {
 		gs = runGenerated(c, pb.bins, probeVs, scheds, rand.New(rand.NewSource(vlib.Seed()+707)), thorough)
 		fmt.Fprintf(os.Stderr, "generated-code phase done after %.1fs\n", time.Since(tStart).Seconds())
 	}()
-	concStats, raceOut := runConcurrent(c, <-raceBuilt, concHist)
+	concStats, raceOut := runConcurrent(c, <-raceBuilt, concHist, rn.or.memo)
 	fmt.Fprintf(os.Stderr, "concurrent variant done after %.1fs\n", time.Since(tStart).Seconds())
 	gwg.Wait()
 
@@ -695,8 +635,6 @@ func main() {
 	c.Set("histories", len(histories))
 	c.Set("sequential", seqStats)
 	c.Set("sequential_wall_s", seqWall)
-	c.Set("fresh_process_oracle_runs", len(fpKeys))
-	c.Set("fresh_process_oracle_disagreements", fpDisagree)
 	c.Set("concurrent", concStats)
 	c.Set("race_detector_output", raceOut)
 	c.Set("generated_code_concurrent", gs)
@@ -728,8 +666,7 @@ func main() {
 	c.Assume("resolvers are deterministic and echo operation name, coerced variables, extensions, the X-Req header and their arguments")
 	c.Assume("sync.Pool reuse is observed through the address of the *RawParams handed to the first OperationParameterMutator (no source hook)")
 	c.Assume("each history starts on a freshly constructed server (the model's Init); transport.pool is process-global and shared by all of them")
-	c.Assume("the fresh-server oracle is memoised per (server configuration, concrete request); transport.pool is emptied (two GC cycles) before a fresh server is asked; every fourth answer is confirmed by a second fresh server")
-	c.Assume("a subset of the oracle answers (header instance completely, one request per transport x outcome otherwise) is confirmed by a fresh server in a fresh process; the others come from fresh servers inside the driver process")
+	c.Assume("the fresh-server oracle is memoised per (server configuration, concrete request); each answer comes from a copy of the driver started for that one request (fresh process: nothing package-level is shared with the servers under test); every fourth answer is confirmed by a second fresh process")
 	c.Assume("generated code: the universal resolver with a fixed plan per request is deterministic; the order of the errors list is not compared (fields of one object are resolved concurrently), its content is; the alone-oracle runs in the probe process before any concurrent request")
 	c.Finish()
 }
@@ -737,8 +674,9 @@ func main() {
 // ------------------------------------------------------------------ concurrent variant
 
 type concInput struct {
-	Histories []hist `json:"histories"`
-	Clients   int    `json:"clients"`
+	Oracle    map[string]Resp `json:"oracle"` // the parent's fresh-process answers
+	Histories []hist          `json:"histories"`
+	Clients   int             `json:"clients"`
 }
 
 type concOutput struct {
@@ -760,10 +698,10 @@ func buildRaceDriver() string {
 	return bin
 }
 
-func runConcurrent(c *vlib.Check, bin string, hs []hist) (stats, string) {
+func runConcurrent(c *vlib.Check, bin string, hs []hist, memo map[string]Resp) (stats, string) {
 	dir := vlib.Work("C07", "race")
 	in := filepath.Join(dir, "histories.json")
-	b, _ := json.Marshal(concInput{Histories: hs, Clients: 8})
+	b, _ := json.Marshal(concInput{Oracle: memo, Histories: hs, Clients: 8})
 	if err := os.WriteFile(in, b, 0o644); err != nil {
 		vlib.Infra("%v", err)
 	}
@@ -843,30 +781,30 @@ func concurrentChild() {
 	}
 	rn := newRunner()
 	rn.conc = true
-	// fill the oracle sequentially first (fresh servers, no concurrency)
+	// the oracle: the parent's answers (fresh processes); what is missing is asked before the clients start
+	if in.Oracle != nil {
+		rn.or.memo = in.Oracle
+	}
+	var need []Concrete
 	for _, h := range in.Histories {
 		for _, s := range h.Steps {
 			r := s.Act.R
-			if _, err := rn.or.alone(concretiseOn(h.Cfg, r, xreqOf(r))); err != nil {
-				if d, ok := err.(*disagree); ok {
-					rn.report("fresh-servers-disagree{tr="+r.Tr+"}", d.Error(), map[string]any{"request": r})
-				} else {
-					fmt.Fprintln(os.Stderr, "oracle:", err)
-					os.Exit(3)
-				}
-			}
+			need = append(need, concretiseOn(h.Cfg, r, xreqOf(r)))
 			if r.Q == "-" && strings.HasPrefix(r.Ext, "H:") {
 				q := r
 				q.Q = strings.TrimPrefix(r.Ext, "H:")
-				if _, err := rn.or.alone(concretiseOn(h.Cfg, q, xreqOf(r))); err != nil {
-					if _, ok := err.(*disagree); !ok {
-						fmt.Fprintln(os.Stderr, "oracle:", err)
-						os.Exit(3)
-					}
-				}
+				need = append(need, concretiseOn(h.Cfg, q, xreqOf(r)))
 			}
 		}
 	}
+	rn.or.fill(need, 2, func(cr Concrete, err error) {
+		if d, ok := err.(*disagree); ok {
+			rn.report("fresh-servers-disagree", d.Error(), map[string]any{"concrete": cr})
+		} else {
+			fmt.Fprintln(os.Stderr, "oracle:", err)
+			os.Exit(3)
+		}
+	})
 	// one server per configuration; its histories are fired by the clients
 	byCfg := map[string][]int{}
 	var cfgs []string
